@@ -130,6 +130,8 @@ def run(ctx):
                 # relational: approved ∧ guard ⇒ the real edit succeeded
                 g = out.get("ok")
                 ctx.count(f"{op}: guard={g} edit {'succeeded' if exp else 'failed'}")
+                if op == "guard lift" and g is True:
+                    ctx.count("guard lift: holds, " + ("nothing is split" if out.get("flat") else "ancestors are split"))
                 if g is True and not exp:
                     ctx.mismatch(op, replay, "the approved edit succeeds whenever the theorem's guard holds", "guard holds, the real edit failed")
                 elif g not in (True, False):
@@ -250,7 +252,8 @@ def run(ctx):
                         else:
                             done = perform(ctx, info, d, "lift", lambda tr: tr.lift(br, tgt), dict(replay, target=tgt), reqs, metas, bundled,
                                            build={"k": "lift", "from": br.from_.pos, "to": br.to.pos, "depth": br.depth, "target": tgt})
-                            # `liftTarget_lift_applies_flat`: approved ∧ nothing is split ∧ TextStable ⇒ the lift succeeded
+                            # `liftTarget_lift_applies(_flat)`: approved ∧ (nothing is split ∨ the pieces the split leaves are valid)
+                            # ∧ TextStable ⇒ the lift succeeded
                             guard(info, d, "lift", {"from": br.from_.pos, "to": br.to.pos, "depth": br.depth, "target": tgt},
                                   dict(replay, target=tgt), done is not None)
                     if block_types:
